@@ -762,6 +762,16 @@ func wrapDisabled(d, exp Exp, lookup *TypeLookup) (Exp, error) {
 	return exp, errs.If()
 }
 
+// Input ids in a fixed order, so that errors are reported deterministically.
+func sortedBindingKeys(m map[string]*ResolvedBinding) []string {
+	keys := make([]string, 0, len(m))
+	for k := range m {
+		keys = append(keys, k)
+	}
+	sort.Strings(keys)
+	return keys
+}
+
 func (node *CallGraphStage) unsplit(lookup *TypeLookup) error {
 	if node.isAlwaysDisabled() {
 		for _, binding := range node.Inputs {
@@ -784,7 +794,8 @@ func (node *CallGraphStage) unsplit(lookup *TypeLookup) error {
 		})
 	}
 	node.Outputs.Exp = e
-	for k, binding := range node.Inputs {
+	for _, k := range sortedBindingKeys(node.Inputs) {
+		binding := node.Inputs[k]
 		// Ensure inputs can be scanned for refs, and also that their
 		// types are cached.  Otherwise, at runtime mrp may end up trying to cache
 		// the types concurrently.
